@@ -82,7 +82,7 @@ Utf8Name(name) == Concat([k \in 1..Len(name) |-> Utf8Of(name[k])])
 
 \* ------------------------------------------------------------------ values
 IsTex3DS(t) ==
-  /\ t.fmt \in Formats3DS
+  /\ t.fmt \in ContainerFormats
   /\ t.w \in TexSides /\ t.h \in TexSides
   /\ Len(t.payload) = PayloadSize(t.fmt, t.w, t.h)
   /\ \A k \in 1..Len(t.name) : t.name[k] \in NameChars
@@ -175,7 +175,7 @@ CtpkWellFormedN(f, L) ==
             LET e == 32 + 32 * i IN
             /\ f[e + 4] < 128 /\ f[e + 12] < 128 /\ f[e + 16] < 128
             /\ HasCStrN(f, L, RdLE32(f, e))
-            /\ RdLE32(f, e + 12) \in Formats3DS
+            /\ RdLE32(f, e + 12) \in ContainerFormats
             /\ HasN(L, RdLE32(f, 8) + RdLE32(f, e + 8),
                    PayloadSize(RdLE32(f, e + 12), RdLE16(f, e + 16), RdLE16(f, e + 18)))
 CtpkWellFormed(f) == CtpkWellFormedN(f, Len(f))
@@ -267,6 +267,8 @@ BchFile(v, p) ==
                   [] s = "M" -> Render(BchMIds(v, p), p.gap, p.fill, MB)
                   [] s = "R" -> Render(BchRIds(v, p), p.gap, p.fill, RB)
   IN head \o Concat([k \in 1..4 |-> Fill(p.gap, p.fill) \o Sec(p.secs[k])]) \o Fill(p.tail, p.fill)
+BchCanonP == [compat |-> 7, secs |-> <<"C", "S", "M", "R">>, rev |-> FALSE, tableFirst |-> TRUE, gap |-> 0, slead |-> 0,
+              fill |-> 0, tail |-> 0, junk |-> 0]
 BchLayouts(v, P) == { BchFile(v, p) : p \in P }
 BchPlacementOK(v, p) ==
   /\ p.compat \in {7, 34}
@@ -288,7 +290,7 @@ BchWellFormedN(f, L) ==
                 /\ HasCStrN(f, L, RdLE32(f, 12) + RdLE32(f, st + 28))
                 /\ LET cb == RdLE32(f, 16) + RdLE32(f, st) IN
                    /\ HasN(L, cb, 28)
-                   /\ RdLE32(f, cb + 24) \in Formats3DS
+                   /\ RdLE32(f, cb + 24) \in ContainerFormats
                    /\ HasN(L, RdLE32(f, 20) + RdLE32(f, cb + 16),
                           PayloadSize(RdLE32(f, cb + 24), RdLE16(f, cb + 2), RdLE16(f, cb)))
 BchWellFormed(f) == BchWellFormedN(f, Len(f))
@@ -373,6 +375,7 @@ CgfxFile(v, p) ==
           [] id[1] = "name" -> Utf8Name(v[id[2]].name) \o <<0>>
           [] id[1] = "pay"  -> v[id[2]].payload
   IN head \o data \o Render(pl.ids, p.gap, p.fill, B) \o Fill(p.tail, p.fill)
+CgfxCanonP == [ord |-> 1, decoy |-> FALSE, rev |-> FALSE, gap |-> 0, fill |-> 0, tail |-> 0, junk |-> 0]
 CgfxLayouts(v, P) == { CgfxFile(v, p) : p \in P }
 CgfxPlacementOK(v, p) == p.ord \in 1..3
 
@@ -510,6 +513,18 @@ ChecksMagic(c) == c \in {"bch", "cgfx", "tpl"}
 
 MagicOK(c, f) == CASE c = "bch" -> BchMagicOK(f) [] c = "cgfx" -> CgfxMagicOK(f)
                    [] c = "tpl" -> TplMagicOK(f) [] c = "ctpk" -> TRUE
+\* a single-texture image of container c in its canonical placement without the payload, which comes last
+CanonP(c) == CASE c = "ctpk" -> CtpkCanonP [] c = "bch" -> BchCanonP [] c = "cgfx" -> CgfxCanonP [] c = "tpl" -> TplCanonP
+CanonHead(c, name, fmt, w, h) ==
+  LET n == PayloadSize(fmt, w, h)
+      v == << [name |-> name, w |-> w, h |-> h, fmt |-> fmt, payload |-> Fill(n, 0), pal |-> <<>>] >>
+      f == File(c, v, CanonP(c))
+  IN SubSeq(f, 1, Len(f) - n)
+CanonPayloadLast(c, name, fmt, w, h) ==
+  LET n == PayloadSize(fmt, w, h)
+      v == << [name |-> name, w |-> w, h |-> h, fmt |-> fmt, payload |-> Fill(n, 0), pal |-> <<>>] >>
+  IN Extents(c, v, CanonP(c))[1] = <<Len(File(c, v, CanonP(c))) - n, Len(File(c, v, CanonP(c)))>>
+
 \* the expected reading of File(c, v, p): out = sequence of [name, w, h, pixels]
 ReadOK(c, v, out) ==
   /\ Len(out) = Len(v)
@@ -517,4 +532,15 @@ ReadOK(c, v, out) ==
        /\ out[i].name = (IF c = "tpl" THEN <<>> ELSE v[i].name)
        /\ out[i].w = v[i].w /\ out[i].h = v[i].h
        /\ DecodeOK(v[i], out[i].pixels)
+\* the same textures as a map keyed by name (the layered filesystem's typed readers): out = sequence of
+\* [key, name, w, h, pixels] in any order; one entry per distinct name, each the reading of a texture
+\* of that name, filed under its own name
+MapReadOK(c, v, out) ==
+  LET names == { v[i].name : i \in 1..Len(v) } IN
+  /\ { out[j].name : j \in 1..Len(out) } = names
+  /\ Len(out) = Cardinality(names)
+  /\ \A j \in 1..Len(out) :
+       /\ out[j].key = out[j].name
+       /\ \E i \in 1..Len(v) : /\ v[i].name = out[j].name /\ out[j].w = v[i].w /\ out[j].h = v[i].h
+                                /\ DecodeOK(v[i], out[j].pixels)
 =============================================================================
